@@ -14,7 +14,7 @@ pub fn rule(prop: &str) -> String {
     let common = "Cases are scenarios expanded from splitmix64(VERIF_SEED, property, index) by a swarm generator \
 (features on/off first, then sizes, then contents) and executed by the real writer against the simulated kernel. \
 A case's signature = generator profile + bucketed generator choices (tags) + per-request outcome + the ordered list of \
-(trigger call kind, fired event or fault kind); distinct = distinct signature hash. ";
+(trigger call kind, fired event or fault kind); distinct = distinct signature hash (each worker stops adding to its set at 250 000 entries, so very large runs report a lower bound). ";
     let specific = match prop {
         "C01" => "Non-trivial = the dump succeeded (there is an image to judge) and at least one option, world feature or fault beyond the thread-count class was active.",
         "C02" => "Non-trivial = at least one hostile feature (hostile registers, corrupted linker data, odd names, syscall fault) was active in the case.",
